@@ -17,8 +17,9 @@ from harness import coqfmt as cf
 PROP = "C19"
 COQ = dict(imports=["Model.Loader", "Spec.C19"], in_ty="input", out_ty="res obs",
            corr="corr_C19", decide="check_C19", inclass="inclass_C19", model="load_revisions")
-THEOREMS = ["C19_check_sound", "C19_main", "C19_main_inclass", "C19_exactly_once", "C19_nothing_else",
-            "C19_no_error", "C19_source_wins", "C19_dedupe", "C19_duplicate_id", "C19_split_clean", "C19_rev_file_names"]
+THEOREMS = ["C19_check_sound", "C19_check_complete", "C19_main", "C19_main_inclass", "C19_exactly_once", "C19_nothing_else",
+            "C19_no_error", "C19_source_wins", "C19_dedupe", "C19_order_invariant", "C19_location_order_invariant",
+            "C19_map_order_refuted", "C19_legacy_ids", "C19_duplicate_id", "C19_split_clean", "C19_rev_file_names"]
 TRUSTED = [
     "file-system semantics assumed by the model (Model/Loader.v): os.walk(top, topdown=True) without followlinks visits "
     "top and every real sub-directory, lists links to directories under dirs and everything else under files; "
@@ -33,8 +34,13 @@ TRUSTED = [
     "os.pathsep == ':' (POSIX); the harness chdir()s into the tree root and gives relative version_locations or absolute ones "
     "written '/R/...' where '/R' is replaced by the absolute path of the tree root (a mkdtemp name without space, comma, "
     "colon, semicolon, newline); the model's paths are relative to that directory",
-    "file content is abstracted to 'importable module defining revision = id' / 'not importable'; modules without a "
-    "`revision` attribute (legacy file-name ids) are not modelled",
+    "file content is abstracted to 'importable module with revision id rid (or without a `revision` attribute), identified by a "
+    "tag (its docstring)' / 'not importable'; down_revision / branch_labels / depends_on are passed through by Script.__init__ "
+    "(the harness checks they arrive unchanged); legacy ids are encoded 1000 + int('1' + hex, 16)",
+    "listing order: the tree value handed to the model lists the entries of every directory in the order os.listdir returned "
+    "them on the materialised tree (observed; os.walk's scandir order is assumed to be the same); the model sorts where the "
+    "code sorts (sorted(files), dirs.sort(), not below a skipped ...__pycache__ directory); the theorems "
+    "C19_order_invariant / C19_location_order_invariant quantify over every order",
 ]
 ASSUME = [
     "wf_tree: unique names per directory; symbolic links point (absolute, one hop) at an existing regular file or "
@@ -48,7 +54,7 @@ RULE = ("quick: (a) EXHAUSTIVE: every subset of 8 entries {a.py,a.pyc,a.pyo,__py
         "on a fixed 3-location tree; (c) seeded random trees (2500 quick / 40000 thorough; 1-3 locations, nested, "
         "overlapping, repeated, symlinked locations and files, __pycache__, duplicate ids, junk content) x all separators x "
         "recursive x sourceless, 40% of them configured through a real alembic.ini file. "
-        "non-trivial = at least one revision loaded or an error raised, and at least one entry ignored, de-duplicated or "
+        "content: ~4% not importable, ~8% modules without `revision` (hex and non-hex file names), distinct docstring tags; observable = multiset of loaded Scripts (id+tag), 'loaded twice' count, ids reported 'present more than once', the Scripts left in RevisionMap._revision_map, or the error kind. non-trivial = at least one revision loaded or an error raised, and at least one entry ignored, de-duplicated or "
         "superseded; distinct by the encoded input")
 EXHAUSTIVE = {"quick": False, "thorough": False}
 CASE_TIMEOUT = 30
@@ -63,8 +69,7 @@ LEVEL_TEXT = ("Machine-checked theorems for ALL well-formed file trees, location
               "(stem shadow, blank location, lone .pyo) are repaired in the code and all statements hold at full strength.  "
               "The model is compared exactly with the real ScriptDirectory on materialised trees on every run.")
 LEVEL_NOTE = ("Trusted: Coq kernel+vm_compute, the hand-written model and the file-system / importlib / re assumptions listed in "
-              "trusted_base (exercised but not proved by the correspondence), the Python harness.  Modules without a "
-              "`revision` attribute, absolute or package-resource locations, chained or relative links are outside the model.")
+              "trusted_base (exercised but not proved by the correspondence), the Python harness.  Absolute locations outside the tree, package-resource locations, chained or relative links are outside the model.")
 
 # all three findings of this property (C19-stem-shadow, C19-blank-location, C19-pyo-assert) are repaired: a regression is a VIOLATION
 
@@ -209,7 +214,7 @@ LOC_STRINGS = ["v1", "v1 v2", "v1,v2", "v1, v2", "v1:v2", "v1;v2", "v1\nv2", "v1
 
 
 def loc_tree():
-    return [D("sd", [D("versions", [F("s0.py", 0)])]),
+    return [D("sd", [D("versions", [F("s0.py", 30)])]),
             D("v1", [F("a1.py", 1), F("a2.py", 2), F("notes.txt", 20), D("sub", [F("a3.py", 3), D(".staging", [F("q2.py", 8)])]),
                      D("_squashed", [F("q1.py", 7)])]),
             D("v:1", [F("q3.py", 9)]),
@@ -234,7 +239,7 @@ def rand_file_name(rnd):
     b = rnd.choice(BASES)
     return rnd.choice(["%s.py", "%s.py", "%s.py", "%s.pyc", "%s.pyc", "%s.pyo", "%s.txt", "%s.py.bak", "__init__.py",
                        ".#%s.py", "__init__%s.py", "%s.x.py", "%s", "%s.pyc.py", "%s.PY", ".%s.py",
-                       "%s.py.pyc"]).replace("%s", b)
+                       "%s.py.pyc", "0%s1f.py", "%sg.py", "0%s1f.pyc"]).replace("%s", b)
 
 
 def rand_cache_name(rnd):
@@ -244,10 +249,13 @@ def rand_cache_name(rnd):
 
 
 def rand_content(rnd):
+    """None: not importable; [rid, tag]: a module defining revision = 'r<rid>' (rid 0: no `revision` attribute at all),
+    identified by its docstring 't<tag>' (tags are distinct within a case)"""
     r = rnd.random()
     if r < 0.04:
         return None
-    return rnd.randint(1, 6)
+    rnd.c19_tag = getattr(rnd, "c19_tag", 0) % 60000 + 1
+    return [0 if r < 0.12 else rnd.randint(1, 6), rnd.c19_tag]
 
 
 def rand_dir_entries(rnd, depth, allow_cache=True):
@@ -374,7 +382,7 @@ def search(tier, seed):
 
 # ----------------------------------------------------------------------------- encoding
 FILE_PATTERNS = ["%s.py", "%s.pyc", "%s.pyo", "%s.txt", "%s.py.bak", "__init__.py", ".#%s.py", "__init__%s.py", "%s.x.py",
-                 "%s", "%s.pyc.py", "%s.PY", ".%s.py", "%s.py.pyc"]
+                 "%s", "%s.pyc.py", "%s.PY", ".%s.py", "%s.py.pyc", "0%s1f.py", "%sg.py", "0%s1f.pyc"]
 CACHE_PATTERNS = ["%s.cpython-312.pyc", "%s.cpython-311.pyc", "%s.cpython-312.opt-1.pyc", "__init__.cpython-312.pyc", "%s.pyc",
                   "%s.txt", "%s.x.cpython-312.pyc"]
 OTHER_NAMES = ["sd", "versions", "v1", "v2", "v3", "sub", "sub2", "pkg", "__pycache__", "x__pycache__", "lnk", "lnk2",
@@ -405,9 +413,23 @@ def coq_name(n):
     return NAME_IDS.get(n) or cf.string(n)
 
 
+def content(c):
+    """(rid, tag) of a file entry's content; a bare int n (older corpus files) means rid = tag = n"""
+    if c is None:
+        return None
+    if isinstance(c, int):
+        return (c, c)
+    return (int(c[0]), int(c[1]))
+
+
+def code(rid, tag):
+    return rid * 65536 + tag
+
+
 def coq_node(e):
     if e[0] == "f":
-        return "File %s" % cf.opt(e[2])
+        c = content(e[2])
+        return "File %s" % ("None" if c is None else "(Some %d)" % code(*c))
     if e[0] == "l":
         return "Link %s" % cf.lst(coq_name(c) for c in e[2])
     return "Dir %s" % coq_entries(e[2])
@@ -417,34 +439,60 @@ def coq_entries(es):
     return cf.lst("(%s, %s)" % (coq_name(e[1]), coq_node(e)) for e in es)
 
 
-def coq_input(h):
+def canonical_tree(es, listdir_order, pre=()):
+    """the entries of every directory in the order os.listdir returned them on the materialised tree (observed): the
+    file system has no order of its own, the model does the sorting the code does"""
+    pos = {n: k for k, n in enumerate(listdir_order.get(pre, []))}
+    out = []
+    for e in sorted(es, key=lambda e: (pos.get(e[1], 0), e[1])):
+        if e[0] == "d":
+            out.append(["d", e[1], canonical_tree(e[2], listdir_order, pre + (e[1],))])
+        else:
+            out.append(e)
+    return out
+
+
+def coq_input(h, listdir_order=None):
     return "mkInput %s %s %s %s (Dir %s)" % (SEP_COQ[h["sep"]], cf.opt(h["locs"], cf.string), cf.boolean(h["rec"]),
-                                             cf.boolean(h["sl"]), coq_entries(h["tree"]))
+                                             cf.boolean(h["sl"]), coq_entries(canonical_tree(h["tree"], listdir_order or {})))
 
 
 # ----------------------------------------------------------------------------- materialisation
 _PYC = {}
 
 
-def _source(rid):
-    return ("\"\"\"rev\"\"\"\nrevision = 'r%d'\ndown_revision = None\nbranch_labels = None\ndepends_on = None\n\n\n"
-            "def upgrade():\n    pass\n\n\ndef downgrade():\n    pass\n" % rid)
+def _source(rid, tag):
+    return ("\"\"\"t%d\"\"\"\n%sdown_revision = None\nbranch_labels = None\ndepends_on = None\n\n\n"
+            "def upgrade():\n    pass\n\n\ndef downgrade():\n    pass\n" % (tag, "revision = 'r%d'\n" % rid if rid else ""))
 
 
-def _pyc_bytes(rid):
-    if rid not in _PYC:
-        import py_compile
-        td = tempfile.mkdtemp(prefix="c19pyc")
-        try:
-            src = os.path.join(td, "m.py")
-            open(src, "w").write(_source(rid))
-            dst = os.path.join(td, "m.pyc")
-            py_compile.compile(src, cfile=dst, doraise=True,
-                               invalidation_mode=py_compile.PycInvalidationMode.CHECKED_HASH)
-            _PYC[rid] = open(dst, "rb").read()
-        finally:
-            shutil.rmtree(td, ignore_errors=True)
-    return _PYC[rid]
+def _pyc_bytes(rid, tag):
+    if (rid, tag) not in _PYC:
+        import importlib._bootstrap_external as be
+        import importlib.util
+        src = _source(rid, tag).encode()
+        co = compile(src, "m.py", "exec", dont_inherit=True)
+        if len(_PYC) > 5000:
+            _PYC.clear()
+        _PYC[(rid, tag)] = bytes(be._code_to_hash_pyc(co, importlib.util.source_hash(src), True))
+    return _PYC[(rid, tag)]
+
+
+def script_code(s):
+    """(code, rid) read back from a real Script: revision id + docstring tag"""
+    rev = s.revision
+    if rev[:1] == "r" and rev[1:].isdigit():
+        rid = int(rev[1:])
+    elif rev and all(ch in "0123456789abcdef" for ch in rev):
+        rid = 1000 + int("1" + rev, 16)         # legacy id taken from a hex file name
+    else:
+        rid = 999                               # an id nothing in the model produces
+    doc = s.doc
+    if not (doc[:1] == "t" and doc[1:].isdigit()):
+        raise RuntimeError("unexpected docstring %r" % doc)
+    if (s.down_revision, tuple(s.branch_labels), tuple(s.dependencies or ())) != (None, (), ()):
+        raise RuntimeError("module attributes changed on the way: %r" % s)
+    return code(rid, int(doc[1:])), rid
 
 
 def materialise(root, es, links):
@@ -456,12 +504,13 @@ def materialise(root, es, links):
         elif e[0] == "l":
             links.append((p, e[2]))
         else:
-            if e[2] is None:
+            c = content(e[2])
+            if c is None:
                 data = b"\x00(((not python\n"
             elif e[1].endswith(".pyc") or e[1].endswith(".pyo"):
-                data = _pyc_bytes(e[2])
+                data = _pyc_bytes(*c)
             else:
-                data = _source(e[2]).encode()
+                data = _source(*c).encode()
             with open(p, "wb") as f:
                 f.write(data)
 
@@ -498,7 +547,8 @@ def run_case(h):
         if h.get("ini"):
             # a real alembic.ini (multi-line values indented); used only when the parser hands from_config the same string
             with open(os.path.join(root, "alembic.ini"), "w") as f:
-                f.write("[alembic]\n" + "".join("%s = %s\n" % (k, v.replace("\n", "\n    ")) for k, v in opts.items()))
+                f.write("[alembic]\n" + "".join("%s = %s\n" % (k, v.replace(root + "/", "%(here)s/").replace("\n", "\n    "))
+                                                for k, v in opts.items()))
             try:
                 c2 = Config(os.path.join(root, "alembic.ini"))
                 if all(c2.get_main_option(k) == v for k, v in opts.items()):
@@ -528,7 +578,7 @@ def run_case(h):
                 except Exception as e:
                     out = {"err": "EOther", "cls": type(e).__name__}
             if out is None:
-                ids = sorted(int(s.revision[1:]) for s in scripts)
+                ids = sorted(script_code(s)[0] for s in scripts)
                 dups = []
                 with warnings.catch_warnings(record=True) as ws2:
                     warnings.simplefilter("always")
@@ -538,24 +588,27 @@ def run_case(h):
                             before = len(ws2)
                             yield s
                             # the consumer (RevisionMap._revision_map) has now processed s
-                            dups.extend([int(s.revision[1:])] * (len(ws2) - before))
+                            dups.extend([script_code(s)[1]] * (len(ws2) - before))
                     rm = RevisionMap(gen)
-                    rm._revision_map
+                    rmap = rm._revision_map
                 out = {"ids": ids, "twice": len(ws1), "dups": sorted(dups),
-                       "map_ids": sorted(int(k[1:]) for k in rm._revision_map if k)}
-                if sorted(set(ids)) != out["map_ids"]:
-                    raise RuntimeError("revision map keys differ from the loaded ids: %r" % (out,))
+                       "map": sorted(script_code(v)[0] for k, v in rmap.items() if k and v is not None)}
+        listdir_order = {}
+        for dp, dn, fn in os.walk(root):
+            rel = os.path.relpath(dp, root)
+            listdir_order[() if rel == "." else tuple(rel.split(os.sep))] = os.listdir(dp)
     finally:
         os.chdir(old)
         shutil.rmtree(root, ignore_errors=True)
     if "err" in out:
         cout = "Err %s" % out["err"]
     else:
-        cout = "Ok (mkObs %s %d %s)" % (cf.nlist(out["ids"]), out["twice"], cf.nlist(out["dups"]))
+        cout = "Ok (mkObs %s %d %s %s)" % (cf.nlist(out["ids"]), out["twice"], cf.nlist(out["dups"]), cf.nlist(out["map"]))
     nfiles = len(real_paths(h["tree"], "f"))
     loaded = len(out.get("ids", ()))
     nontrivial = (loaded > 0 or "err" in out) and (nfiles > loaded or out.get("twice", 0) > 0)
     shape = "%s%s-%s%s-%s" % ("ini:" if via_ini else "", h["sep"] if h["locs"] is not None else "default",
                               "rec" if h["rec"] else "flat", "-sl" if h["sl"] else "",
-                            out.get("err") or ("ok%s%s" % ("+twice" if out["twice"] else "", "+dup" if out["dups"] else "")))
-    return dict(cin=coq_input(h), cout=cout, out=out, nontrivial=nontrivial, shape=shape)
+                            out.get("err") or ("ok%s%s%s" % ("+twice" if out["twice"] else "", "+dup" if out["dups"] else "",
+                                                               "+legacy" if any(c >= 1000 * 65536 for c in out["ids"]) else "")))
+    return dict(cin=coq_input(h, listdir_order), cout=cout, out=out, nontrivial=nontrivial, shape=shape)
